@@ -738,10 +738,62 @@ def compiler_side(defs: List[str], skel: Dict[str, str]) -> None:
     t_pf = ast.parse(open(p_pf).read())
     for name in ("format_array_type", "format_default_value_array"):
         skel[f"py/formatter.py:PyFormatter.{name}"] = sha256(skeleton_digest(find_class_func(t_pf, "PyFormatter", name)))
-    # bp.py entry points
+    # bp.py entry points: to_dict pinned; to_json READ (does json.dumps get a `default` hook that
+    # turns byte arrays into lists?)
     t_bp = ast.parse(open(os.path.join(REPO, "lib/py/bitprotolib/bp.py")).read())
-    for name in ("to_dict", "to_json"):
-        skel[f"json:bp.py:MessageBase.{name}"] = sha256(skeleton_digest(find_class_func(t_bp, "MessageBase", name)))
+    skel["json:bp.py:MessageBase.to_dict"] = sha256(skeleton_digest(find_class_func(t_bp, "MessageBase", "to_dict")))
+    defs.append(f"Definition dumps_bytes_as_list : bool := {'true' if to_json_hook(t_bp) else 'false'}.")
+
+
+def to_json_hook(t_bp: ast.AST) -> bool:
+    """MessageBase.to_json must be `return json.dumps(self.to_dict(), indent=indent,
+    separators=separators[, default=<module-level function>])`.  Returns True when the hook is
+        def f(o): if isinstance(o, (bytearray, bytes)): return list(o)
+                  raise TypeError(...)
+    False when there is no `default`; anything else fails closed."""
+    where = "translator(json): bp.py: MessageBase.to_json"
+    fn = find_class_func(t_bp, "MessageBase", "to_json")
+    if [a.arg for a in fn.args.args] != ["self", "indent", "separators"] or fn.args.vararg or fn.args.kwarg \
+            or fn.args.kwonlyargs or [ast.unparse(d) for d in fn.args.defaults] != ["None", "None"] \
+            or fn.decorator_list:
+        raise Broken(where + ": signature is not (self, indent=None, separators=None)")
+    body = [x for x in fn.body if not (isinstance(x, ast.Expr) and isinstance(x.value, ast.Constant))]
+    if len(body) != 1 or not isinstance(body[0], ast.Return) or not isinstance(body[0].value, ast.Call):
+        raise Broken(where + ": body is not a single `return json.dumps(...)`")
+    c = body[0].value
+    if ast.unparse(c.func) != "json.dumps" or [ast.unparse(a) for a in c.args] != ["self.to_dict()"]:
+        raise Broken(where + ": does not return json.dumps(self.to_dict(), ...)", ast.unparse(c))
+    kws = {k.arg: k.value for k in c.keywords}
+    if None in kws or len(kws) != len(c.keywords) or ast.unparse(kws.get("indent", ast.Constant(0))) != "indent" \
+            or ast.unparse(kws.get("separators", ast.Constant(0))) != "separators" \
+            or set(kws) - {"indent", "separators", "default"}:
+        raise Broken(where + ": keyword arguments are not indent=indent, separators=separators[, default=f]",
+                     ast.unparse(c))
+    if "default" not in kws:
+        return False
+    if not isinstance(kws["default"], ast.Name):
+        raise Broken(where + ": `default` is not a module-level function name", ast.unparse(c))
+    hooks = [n for n in t_bp.body if isinstance(n, ast.FunctionDef) and n.name == kws["default"].id]
+    if len(hooks) != 1:
+        raise Broken(where + f": hook {kws['default'].id} is not defined exactly once at module level")
+    h = hooks[0]
+    hb = [x for x in h.body if not (isinstance(x, ast.Expr) and isinstance(x.value, ast.Constant))]
+    ok = (len(h.args.args) == 1 and not h.decorator_list and len(hb) == 2 and isinstance(hb[0], ast.If)
+          and not hb[0].orelse and len(hb[0].body) == 1 and isinstance(hb[0].body[0], ast.Return)
+          and isinstance(hb[1], ast.Raise) and hb[1].exc is not None)
+    if ok:
+        a = h.args.args[0].arg
+        t = hb[0].test
+        exc = hb[1].exc
+        ok = (isinstance(t, ast.Call) and ast.unparse(t.func) == "isinstance" and len(t.args) == 2
+              and not t.keywords and ast.unparse(t.args[0]) == a and isinstance(t.args[1], ast.Tuple)
+              and sorted(ast.unparse(e) for e in t.args[1].elts) == ["bytearray", "bytes"]
+              and ast.unparse(hb[0].body[0].value) == f"list({a})"
+              and isinstance(exc, ast.Call) and ast.unparse(exc.func) == "TypeError")
+    if not ok:
+        raise Broken(where + f": hook {h.name} is not `if isinstance(o, (bytearray, bytes)): return list(o)` "
+                     "followed by `raise TypeError(...)`", ast.unparse(h)[:400])
+    return True
 
 
 def gen_json() -> Tuple[str, Dict[str, str]]:
